@@ -4,6 +4,7 @@ not, other scheduler instances created and driven in between, events of one sche
 to another; repeated runs.  Notification sequences are compared after first-occurrence
 renaming of identifiers.  The baseline run is also judged against both Coq models."""
 import os
+import zlib
 import random
 
 import gen_run
@@ -69,6 +70,9 @@ def run_variant(case, script, v, workdir, tag):
             if st and len(ln) > len(st) and rng.random() < 0.4:
                 lines[k] = ln[:len(ln) - len(st)] + "\t" + st
         text = "\n".join(lines)
+    if not v.path and zlib.crc32(text.encode()) % 2 == 0:
+        # a program passed as TEXT may end in anything, e.g. a comment naming the file it came from
+        text = text.rstrip("\n") + "\n# exported from orders/cabinet_door.pfdl\n"
     prog_arg = text
     if v.path:
         # every program of the run is written to the SAME path, and the file keeps one (old)
